@@ -81,14 +81,10 @@ fn build(layout: usize, order: [u64; 3], rf: usize) -> HashRing {
     let vn = if layout == 4 { 1 } else { 2 };
     HashRing::verif_from_parts(ring, nodes, vn, rf)
 }
-/// reference: first virtual node at or after `pos` (wrapping), then clockwise, distinct physical nodes
-fn reference(layout: usize, pos: u64, want: usize, skip: u64) -> ([u64; 3], usize) {
+/// reference walk for a CONCRETE start index: clockwise from `start`, distinct physical nodes, at most `want`
+fn walk(layout: usize, start: usize, want: usize, skip: u64) -> ([u64; 3], usize) {
     let lay = LAY[layout];
     let len = lay.len();
-    let mut start = 0;
-    let mut found = false;
-    let mut i = 0;
-    while i < len { if !found && lay[i].0 >= pos { start = i; found = true; } i += 1; }
     let mut out = [0u64; 3];
     let mut n = 0;
     let mut k = 0;
@@ -99,11 +95,28 @@ fn reference(layout: usize, pos: u64, want: usize, skip: u64) -> ([u64; 3], usiz
     }
     (out, n)
 }
-fn matches(list: &[ReplicaId], exp: &([u64; 3], usize)) -> bool {
-    if list.len() != exp.1 { return false; }
-    let mut i = 0;
-    while i < list.len() { if list[i].0 != exp.0[i] { return false; } i += 1; }
-    true
+/// does `list` equal the reference for key position `pos`? The start index (first virtual node at or after `pos`,
+/// wrapping to 0) is selected by comparisons only; every walk is computed for a concrete start, so the oracle contains
+/// no symbolic indexing (a first version indexed the layout table with a symbolic start: out of memory in CBMC).
+fn matches_reference(list: &[ReplicaId], layout: usize, pos: u64, want: usize, skip: u64) -> bool {
+    let lay = LAY[layout];
+    let len = lay.len();
+    let mut ok = false;
+    let mut s = 0;
+    while s < len {
+        // start == s  <=>  lay[s] is the first position >= pos; start == 0 also when pos is beyond the last position
+        let first_ge = lay[s].0 >= pos && (s == 0 || lay[s - 1].0 < pos);
+        let wraps = s == 0 && lay[len - 1].0 < pos;
+        if first_ge || wraps {
+            let exp = walk(layout, s, want, skip);
+            if list.len() == exp.1
+                && (exp.1 < 1 || list[0].0 == exp.0[0])
+                && (exp.1 < 2 || list[1].0 == exp.0[1])
+                && (exp.1 < 3 || list[2].0 == exp.0[2]) { ok = true; }
+        }
+        s += 1;
+    }
+    ok
 }
 fn same(a: &[ReplicaId], b: &[ReplicaId]) -> bool { if a.len() != b.len() { return false; } let mut i = 0; while i < a.len() { if a[i] != b[i] { return false; } i += 1; } true }
 fn contains(a: &[ReplicaId], x: ReplicaId) -> bool { let mut i = 0; while i < a.len() { if a[i] == x { return true; } i += 1; } false }
@@ -120,8 +133,7 @@ pub fn ring(layout: usize, what: u8, rf: usize) {
         0 => {
             let r2 = build(layout, [3, 1, 2], rf);
             let (a, b) = (r1.get_replicas("k"), r2.get_replicas("k"));
-            let exp = reference(layout, pos, want, 0);
-            vcheck!(matches(&a, &exp), "ring:replica list is not the min(rf, n) distinct members clockwise from the key");
+            vcheck!(matches_reference(&a, layout, pos, want, 0), "ring:replica list is not the min(rf, n) distinct members clockwise from the key");
             vcheck!(same(&a, &b), "ring:replica list depends on the order in which members joined");
             vcover!(rf >= 3, "replication factor covers the whole cluster");
             std::mem::forget((a, b, r2));
@@ -146,8 +158,7 @@ pub fn ring(layout: usize, what: u8, rf: usize) {
             let mut r3 = r1.clone();
             r3.remove_node(ReplicaId(gone));
             let c = r3.get_replicas("k");
-            let exp = reference(layout, pos, if rf < members - 1 { rf } else { members - 1 }, gone);
-            vcheck!(matches(&c, &exp), "ring:after a removal the list is not the remaining members clockwise from the key");
+            vcheck!(matches_reference(&c, layout, pos, if rf < members - 1 { rf } else { members - 1 }, gone), "ring:after a removal the list is not the remaining members clockwise from the key");
             vcheck!(contains(&a, ReplicaId(gone)) || same(&a, &c), "ring:removing a node changed the placement of a key it did not hold");
             std::mem::forget((a, c, r3));
         }
